@@ -143,7 +143,10 @@ func genC08Altered(g *Gen) any {
 		bit = bit % (2200 * 8)
 	}
 	sc.Client = ClientParams{Method: "shadowsocks", Encryption: "aes-gcm", Browser: browser, Transport: "direct", NumConn: 1, SessionID: 77}
-	sc.Presents = []C08Present{{AtMS: int64(g.Pick(0, 1000, 60000)), Alter: bit, N: 1}}
+	// the altered copy, then the genuine packet once more: a refused copy must
+	// not make the server forget what it has already accepted
+	at := int64(g.Pick(0, 1000, 60000))
+	sc.Presents = []C08Present{{AtMS: at, Alter: bit, N: 1}, {AtMS: at + int64(g.Pick(0, 1, 2000)), Alter: -1, N: 1}}
 	return sc
 }
 
